@@ -130,8 +130,8 @@ class Contract:
         args = bind(self.fn, args, kwargs)
         if self.requires is not None:
             ok = self.pre(eng, args)
+            eng.oblige('pre@callsite', self.qn, ok)
             if ok is not True:
-                eng.oblige('pre@callsite', self.qn, ok)
                 eng.assume(ok)
         if self.engine:
             return self.spec(eng, *args)
@@ -186,11 +186,23 @@ def run_unit(uid):
                 res['xcheck'] = cross_check(eng, u, paths)
         except OutOfSubset as e:
             res['oos'] = str(e)
+        agg = {}
         for ob in eng.obligations:
+            props = getattr(ob, 'props', None) or u.props
+            if ob.status == 'proved':
+                key = (ob.kind, ob.label, ob.backend, tuple(props))
+                a = agg.get(key)
+                if a is None:
+                    agg[key] = a = {'kind': ob.kind, 'label': ob.label, 'status': 'proved', 'model': None, 'seconds': 0.0,
+                                    'backend': ob.backend, 'decisions': None, 'detail': '', 'props': list(props), 'count': 0}
+                    res['obligations'].append(a)
+                a['count'] += 1
+                a['seconds'] = round(a['seconds'] + ob.seconds, 4)
+                continue
             res['obligations'].append({
                 'kind': ob.kind, 'label': ob.label, 'status': ob.status, 'model': ob.model,
                 'seconds': round(ob.seconds, 4), 'backend': ob.backend, 'decisions': _ser(ob.decisions),
-                'detail': ob.detail, 'props': getattr(ob, 'props', None) or u.props})
+                'detail': ob.detail, 'props': props, 'count': 1})
         st = eng.stats
         res.update(solver_calls=st['solver_calls'], solver_s=round(st['solver_s'], 3), inlined=sorted(st['inlined']),
                    contract_calls=st['contract_calls'], merges=st['merges'], undecided_branches=eng.undecided_branches)
